@@ -81,24 +81,22 @@ SPEC = {
     'assumptions': ['sequence-number ranges end below 2^64-1 in the harness (the model returns Spin for the non-terminating corner, F19)',
                     'cycles: honest oracles read the same destination within a cycle (it moves between cycles only), every committed message is '
                     'readable, no token data, nothing costly, everything fits the report limits, fewer than 1000 commit reports inside the window'],
-    'level_text': 'Proof: 51 closed Coq theorems. 29 property theorems. Function level, executed lists in closed form (runs): which reports stay pending and what they '
-                  'record for every layout and every legal executed-range answer (C09_filter_spec_reports, _executed, C09_pending_exact, C09_never_reexecuted_recorded), '
-                  'error iff overlapping ranges (C09_filter_error_iff), order independence, C09_compute_ranges, C09_group_by_chain; C09_never_reexecuted_cycle (with the '
-                  'C08 builder: a message executed when the cycle started is not eligible). History level (ExecCycles: state = destination content; events = tick, '
-                  'commit, executions visible, readiness, curses, roles, a cycle with what lands), by induction over EVERY event list: C09_hist_cycle_memoryless, '
-                  'C09_hist_filter_total, C09_hist_pending_exact, C09_hist_candidates, C09_hist_never_reexecuted, C09_hist_no_loss (an unexecuted, in-window, live, ready '
-                  'committed message is a candidate of EVERY later cycle whatever landed or failed to land), C09_hist_executed_committed. System level (ExecSys): '
-                  'C09_cycle_no_reexecution; C09_cycle_liveness - quorums f_dest+1 for the commit report, f_k+1 for message and token slots, nonce 0, not executed, '
-                  'report fits => all three rounds succeed and the message is in the execute report whatever deviating oracles send; the recorded findings F13e, F14, F55 '
-                  'and well-formedness of agreed reports are explicit hypotheses; C09_history_cycle extends it over failed rounds. Unrepaired code refuted: F15, F75 '
-                  '(poisoned key stalled every later round), F76 (two agreed versions of one report stalled GetMessages); known: F55 '
-                  "(C09_liveness_oversized_report_refuted). Judge soundness (22 C09_judge_*): for every sink the executable property accepts the model's output and "
-                  'implies the Prop-level clause. Correspondence, every run: computeRanges, filterOutExecutedMessages (incl. an exhaustive small enumeration), '
-                  'getPendingExecutedReports, Plugin.Observation at the 1 MiB observation limit, four-oracle histories, and four long-lived execute.Plugin instances per '
-                  'history over 5..12 full cycles on one simulated destination (C09_cycles) plus the ExecSys cycle sinks. Translation tie (7 theorems, C09_gen.v + '
-                  'C13_gen.v): computeRanges, SeqNumRange.Contains, PluginState.Next / IsValid. Partial: liveness is proved from observation-level quorums; that honest '
-                  'readers of one destination produce f+1 identical observations is not a theorem (Plugin.Observation is an input of ExecSys) - it is monitored on the '
-                  'real plugins against the harness ground truth (sys_live); filterOutExecutedMessages is refused by the translator.',
+    'level_text': 'Proof: 51 closed Coq theorems. 29 property theorems. Function level, executed lists in closed form: which reports stay pending and what they record '
+                  'for every layout and legal executed-range answer (C09_filter_spec_*, C09_pending_exact), error iff overlapping ranges, C09_compute_ranges; '
+                  'C09_never_reexecuted_cycle (with the C08 builder). History level (ExecCycles: state = destination content, events incl. commits, executions, curses, '
+                  'roles, cycles), by induction over EVERY event list: C09_hist_pending_exact, C09_hist_candidates, C09_hist_never_reexecuted, C09_hist_no_loss (an '
+                  'unexecuted, in-window, live, ready committed message is a candidate of EVERY later cycle whatever landed or failed to land), '
+                  'C09_hist_cycle_memoryless. System level (ExecSys): C09_cycle_no_reexecution; C09_cycle_liveness - quorums f_dest+1 for the commit report, f_k+1 for '
+                  'message and token slots, nonce 0, not executed, report fits => all three rounds succeed and the message is in the execute report whatever deviating '
+                  'oracles send; the recorded findings F13e, F14, F55 and well-formedness of agreed reports are explicit hypotheses; C09_history_cycle extends it over '
+                  'failed rounds. Unrepaired code refuted: F15, F75 (a poisoned key stalled every later round), F76 (two agreed versions of one report stalled '
+                  'GetMessages); known: F55 (C09_liveness_oversized_report_refuted). Judge soundness (22 C09_judge_*): for every sink the executable property accepts the '
+                  "model's output and implies the Prop-level clause. Correspondence, every run: computeRanges, filterOutExecutedMessages (incl. an exhaustive small "
+                  'enumeration), getPendingExecutedReports, Plugin.Observation at the 1 MiB limit, four-oracle histories incl. oversized backlogs (C09_history, _big), '
+                  'four long-lived execute.Plugin instances per history over 5..12 full cycles on one simulated destination (C09_cycles), the ExecSys cycle sinks. '
+                  'Translation tie (7 theorems, C09_gen.v + C13_gen.v): computeRanges, Contains, PluginState.Next / IsValid. Partial: liveness is proved from '
+                  'observation-level quorums; that honest readers of one destination produce f+1 identical observations is not a theorem (Plugin.Observation is an input '
+                  'of ExecSys) - it is monitored on the real plugins against the harness ground truth.',
     'level_note': 'Trusted: Coq kernel, hand-written model and theorem statements, differential harness, leaf translator. Specific: CommitReportsGTETimestamp / '
                   'ExecutedMessageRanges answers are scripted oracles, the legal answers considered are those whose ranges sorted by start each begin at or after the '
                   "previous end; sort.Slice on distinct start values; time.Now is not injectable (aged-clock histories shift the destination's timestamps, real-clock "
